@@ -47,6 +47,9 @@ EmitCase ==
             mapped |-> J(S!MapTree(LAMBDA v : Append(v, 0), T)),
             simp |-> J(S!Simplify(T)),
             upd |-> J(S!UpdateKeys(T, <<"b", "root">>, <<S!Leaf(<<77>>), S!Tup(<<S!Leaf(<<78>>)>>)>>)),
+            \* replacement values that are falsy in python (an empty list, an empty tuple) are values like any other
+            upd_empty |-> J(S!UpdateKeys(T, <<"root">>, <<S!Leaf(<<>>)>>)),
+            upd_empty_tuple |-> J(S!UpdateKeys(T, <<"a", "root">>, <<S!Leaf(<<>>), S!Tup(<<>>)>>)),
             merge_self |-> J(S!Merge(<<T, T>>, TRUE)),
             merge_other |-> J(S!Merge(<<T, Other>>, TRUE)),
             merge_leaf |-> J(S!Merge(<<T, S!Leaf(<<93>>)>>, TRUE)),
